@@ -837,6 +837,10 @@ class MemoryPathIO(AbstractPathIO):
             snode = self.get_node(source)
             if None in (snode, dparent):
                 raise FileNotFoundError
+            if dparent.type != "dir":
+                raise NotADirectoryError
+            if self._absolute(destination).is_relative_to(self._absolute(source)):
+                raise OSError("can't move a directory into itself")
             for i, node in enumerate(sparent.content):
                 if node.name == source.name:
                     sparent.content.pop(i)
